@@ -2031,6 +2031,25 @@ sqascii_FetchSubseq(ESL_SQFILE *sqfp, const char *source, int64_t start, int64_t
  *****************************************************************/
 
 
+/* stream_offset()
+ * Offset in the input of the next byte that fread() will deliver.
+ * A pipe (gzip -dc, or a piped stdin) has no ftello(): there, count
+ * the bytes read so far instead, so that <moff> (and with it <boff>
+ * and every sq->roff/hoff/doff/eoff) remain the true byte positions
+ * in the stream, as they are for a file. Sequential reads only on a
+ * pipe (Position() refuses them), so <mem> always holds the bytes
+ * <moff>..<moff+mn-1> and the next block starts at <moff+mn>.
+ */
+static off_t
+stream_offset(ESL_SQASCII_DATA *ascii)
+{
+  off_t offset = ftello(ascii->fp);
+
+  if (offset >= 0)     return offset;
+  if (ascii->moff < 0) return 0;        /* nothing read yet */
+  return ascii->moff + ascii->mn;
+}
+
 /* loadmem() 
  *
  * Load the next block of data from stream into mem buffer,
@@ -2065,7 +2084,7 @@ loadmem(ESL_SQFILE *sqfp)
   }
   else if (ascii->is_recording == TRUE)
   {
-      if (ascii->mem == NULL) ascii->moff = ftello(ascii->fp);        /* first time init of the offset */
+      if (ascii->mem == NULL) ascii->moff = stream_offset(ascii);     /* first time init of the offset */
       ESL_RALLOC(ascii->mem, tmp, sizeof(char) * (ascii->allocm + eslREADBUFSIZE));
       ascii->allocm += eslREADBUFSIZE;
       n = fread(ascii->mem + ascii->mpos, sizeof(char), eslREADBUFSIZE, ascii->fp);
@@ -2079,7 +2098,7 @@ loadmem(ESL_SQFILE *sqfp)
       }
       ascii->is_recording = -1;/* no more recording is possible now */
       ascii->mpos = 0;
-      ascii->moff = ftello(ascii->fp);
+      ascii->moff = stream_offset(ascii);
       n = fread(ascii->mem, sizeof(char), eslREADBUFSIZE, ascii->fp); /* see note [1] below */
       ascii->mn   = n;
   }
